@@ -75,7 +75,7 @@ def work_cells(item, rec):
                 rec.count("both_refuse_but_run_error_is_not_an_input_error")
             if v[0] == "raw":
                 rec.count("validate_raised_a_raw_exception")
-        for key, forms in keyed("C20:%s:%s" % (type_, cls), devs):
+        for key, forms in keyed(P.key_prefix("C20", type_, c, role), devs):
             if key in seen:
                 continue
             seen.add(key)
@@ -95,6 +95,17 @@ def run_structural(V, case):
     return outs, devs
 
 
+def attributed_name(V, case, devs):
+    """a pair of violations that deviates exactly like one of its members alone is the member's finding (one root
+    cause = one key); otherwise the pair is named"""
+    if len(case["viol"]) == 2 and any(devs.values()):
+        singles = {c["name"]: c for c in P.structural_cases() if len(c["viol"]) == 1}
+        for m in case["viol"]:
+            if m in singles and run_structural(V, singles[m])[1] == devs:
+                return m
+    return case["name"]
+
+
 def work_structural(case, rec):
     V = harness.boot()
     outs, devs = run_structural(V, case)
@@ -105,7 +116,7 @@ def work_structural(case, rec):
     for f in P.FORMS_2:
         v, r = outs[f]
         rec.count("both_accept" if v[0] == "ok" and r[0] == "ok" else ("both_refuse" if v[0] != "ok" and r[0] != "ok" else "disagree"))
-    for key, forms in keyed("C20:%s" % case["name"], devs):
+    for key, forms in keyed("C20:%s" % attributed_name(V, case, devs), devs):
         rec.violation(key, "table with %s (columns %s, first rows %s): %s" % (
             case["name"], case["spec"]["cols"], case["spec"]["rows"][:3],
             "; ".join("%s: validate_dataset %s BUT run %s" % (P.FORM_NAME[f], _show(outs[f][0]), _show((outs[f][1][0],) + (() if outs[f][1][0] == "ok" else tuple(outs[f][1][1:])))) for f in forms)),
